@@ -222,8 +222,16 @@ def witness_prefix(state):
 
 def report(jr, cname, state, op, relation, err):
     history = witness_prefix(state) + [op]
+    # a broken invariant (e.g. a cache that survives train()) only becomes observable after further operations:
+    # try the witness history alone and followed by probe suffixes
+    suffixes = [[], ["param_update", "eval", "use_cache_on"], ["train", "param_update", "eval", "use_cache_on"], ["eval", "use_cache_on"], ["load_state_dict", "eval", "use_cache_on"]]
+    rep = {"reproduced": False}
     with stubs.real_torch():
-        rep = replay(cname, history)
+        for suf in suffixes:
+            rep = replay(cname, history + suf)
+            if rep.get("reproduced"):
+                history = history + suf
+                break
     sig = {"cls": cname.split("/")[0], "op": op}
     payload = {"property": PROP, "kernel": cname, "relation": relation, "signature": sig, "state": list(state), "history": history, "error": err, "replay_result": rep, "replay_call": {"fn": "harness.C10:replay", "args": {"cname": cname, "history": history}}}
     if rep.get("reproduced"):
@@ -266,6 +274,8 @@ def replay(cname, history, seed=0):
                     if "l" in f:
                         m.cache.logabsdet = m.logabsdet()
             elif step == "param_update":
+                if not m.training:
+                    continue  # optimiser steps are taken in training mode (the property's wording)
                 with torch.no_grad():
                     for p in m.parameters():
                         p.add_(torch.randn_like(p) * 0.3)
